@@ -256,8 +256,8 @@ size_t cc_dynamic_pool_used_bytes(CC_DynamicPool *pool)
     PageInfo* pi = (PageInfo*)pool->page;
 
     while (pi->previous) {
-        total += pi->size;
         pi     = pi->previous;
+        total += pi->size;
     }
     return total;
 }
